@@ -1,9 +1,943 @@
+/-
+  C08 — Network-layer headers and messages encode and decode faithfully.
+
+  Property text → formal statement (model: `Model.Npci`, a transcription of npdu.py)
+  * "For every combination of control flags, priority, destination (remote
+    station, remote broadcast, global broadcast, with any 1..255-octet station
+    address), source, hop count, message type and vendor ID, the network header
+    … decodes back to the same fields and payload"        → `npci_roundtrip`
+    (`WF` is exactly that quantifier; no bound on the payload)
+  * "is laid out as clause 6.2 prescribes"                → `control_octet_layout`,
+                                                            `npci_layout`
+  * "each network-layer message … round-trips its parameters"
+        → `body_roundtrip` (lists of ANY length: `nets_roundtrip`, `rtes_roundtrip`),
+          `message_roundtrip` (through the complete frame and the type registry),
+          `table_256_refused`, `registry_matches` (generated `npdu_types` = model table)
+  * "Headers that the standard forbids (version other than 1, broadcast or
+    zero-length source) and truncated ones are refused with a decoding error
+    rather than misread"
+        → `npci_refuses_version`, `npci_refuses_source` (SNET = 0xFFFF or SLEN = 0),
+          `truncation_refused` (EVERY strict prefix of a valid header),
+          `decode_only_decoding_errors` (no other failure exists),
+          `decode_wf` + `reparse_stable` (whatever is accepted — any of the 2^8
+          control octets — is a well-formed header that re-encodes and decodes
+          to the same fields: nothing is misread)
+-/
 import BacVerif.Model.Npci
+import BacVerif.Lemmas.Frame
 import BacVerif.Gen.NpduTypes
 namespace BacVerif.C08
-open BacVerif BacVerif.Npci
+open BacVerif BacVerif.Npci BacVerif.Frame
 
-/-- the regenerated `npdu_types` registry is the table the model dispatches on -/
+/-! ## the quantifier of the property as a decidable predicate -/
+
+/-- destinations: remote station with a 1..255-octet MAC, remote broadcast,
+    global broadcast (network numbers as `RemoteStation`/`RemoteBroadcast`
+    accept them: 0..65534) -/
+def WFDadr : Addr → Prop
+  | .remoteStation net mac => net < 65535 ∧ 1 ≤ mac.length ∧ mac.length ≤ 255
+  | .remoteBroadcast net => net < 65535
+  | .globalBroadcast => True
+  | _ => False
+
+/-- sources: remote stations only -/
+def WFSadr : Addr → Prop
+  | .remoteStation net mac => net < 65535 ∧ 1 ≤ mac.length ∧ mac.length ≤ 255
+  | _ => False
+
+instance (a : Addr) : Decidable (WFDadr a) := by unfold WFDadr; cases a <;> exact inferInstance
+instance (a : Addr) : Decidable (WFSadr a) := by unfold WFSadr; cases a <;> exact inferInstance
+
+/-- a header the property quantifies over.  The hop count accompanies the
+    DADR; the vendor id accompanies message types 0x80..0xFF. -/
+def WF (h : Npci) : Prop :=
+  h.version = 1 ∧ h.priority < 4 ∧
+  (match h.dadr with | none => True | some a => WFDadr a) ∧
+  (match h.sadr with | none => True | some a => WFSadr a) ∧
+  (match h.dadr, h.hopCount with
+   | some _, some n => n < 256 | none, none => True | _, _ => False) ∧
+  (match h.netMessage, h.vendorId with
+   | none, none => True
+   | some m, none => m < 128
+   | some m, some v => 128 ≤ m ∧ m < 256 ∧ v < 65536
+   | none, some _ => False)
+
+instance (h : Npci) : Decidable (WF h) := by
+  unfold WF
+  cases h.dadr <;> cases h.sadr <;> cases h.hopCount <;> cases h.netMessage <;> cases h.vendorId <;>
+    exact inferInstance
+
+/-! ## the control octet -/
+
+theorem bit_iff (c m : Nat) : bit c m = true ↔ c / m % 2 = 1 := by simp [bit]
+
+/-- **control_octet_layout**: bit 7 = network layer message, bit 5 = DNET
+    present, bit 3 = SNET present, bit 2 = data expecting reply, bits 1..0 =
+    priority; the reserved bits 6 and 4 are zero. -/
+theorem control_octet_layout (h : Npci) :
+    controlOctet h < 256 ∧
+    (bit (controlOctet h) 0x80 = h.netMessage.isSome) ∧
+    (bit (controlOctet h) 0x40 = false) ∧
+    (bit (controlOctet h) 0x20 = h.dadr.isSome) ∧
+    (bit (controlOctet h) 0x10 = false) ∧
+    (bit (controlOctet h) 0x08 = h.sadr.isSome) ∧
+    (bit (controlOctet h) 0x04 = h.expectingReply) ∧
+    (controlOctet h % 4 = h.priority % 4) := by
+  unfold controlOctet bit
+  cases h.netMessage.isSome <;> cases h.dadr.isSome <;> cases h.sadr.isSome <;>
+    cases h.expectingReply <;> simp <;> omega
+
+/-! ## header sections: encode → decode -/
+
+theorem put_ok {n : Nat} (h : n < 256) : put n = .ok [UInt8.ofNat n] := by simp [put, h]
+
+theorem decodeDadr_encode (a : Addr) (hw : WFDadr a) :
+    ∃ d, encodeDadr a = .ok d ∧ ∀ rest, decodeDadr (d ++ rest) = .ok (a, rest) := by
+  cases a with
+  | remoteStation net mac =>
+    obtain ⟨hn, h1, h2⟩ := hw
+    refine ⟨be16 net ++ [UInt8.ofNat mac.length] ++ mac, by simp [encodeDadr, put_ok (show mac.length < 256 by omega)], ?_⟩
+    intro rest
+    have hne : net ≠ 65535 := by omega
+    have hl : mac.length ≠ 0 := by omega
+    simp [decodeDadr, List.append_assoc, getU16_be16 net (by omega), getU8_cons mac.length (by omega),
+      getData_append, hne, hl]
+  | remoteBroadcast net =>
+    have hn : net < 65535 := hw
+    refine ⟨be16 net ++ [0], by simp [encodeDadr], ?_⟩
+    intro rest
+    have hne : net ≠ 65535 := by omega
+    simp [decodeDadr, List.append_assoc, getU16_be16 net (by omega), getU8, getData, hne]
+  | globalBroadcast =>
+    refine ⟨[0xFF, 0xFF, 0], by simp [encodeDadr], ?_⟩
+    intro rest
+    simp [decodeDadr, getU16, getU8, getData]
+  | null => exact absurd hw (by simp [WFDadr])
+  | localBroadcast => exact absurd hw (by simp [WFDadr])
+  | localStation mac => exact absurd hw (by simp [WFDadr])
+
+theorem decodeSadr_encode (a : Addr) (hw : WFSadr a) :
+    ∃ d, encodeSadr a = .ok d ∧ ∀ rest, decodeSadr (d ++ rest) = .ok (a, rest) := by
+  cases a with
+  | remoteStation net mac =>
+    obtain ⟨hn, h1, h2⟩ := hw
+    refine ⟨be16 net ++ [UInt8.ofNat mac.length] ++ mac, by simp [encodeSadr, put_ok (show mac.length < 256 by omega)], ?_⟩
+    intro rest
+    have hne : net ≠ 65535 := by omega
+    have hl : mac.length ≠ 0 := by omega
+    simp [decodeSadr, List.append_assoc, getU16_be16 net (by omega), getU8_cons mac.length (by omega),
+      getData_append, hne, hl]
+  | null => exact absurd hw (by simp [WFSadr])
+  | localBroadcast => exact absurd hw (by simp [WFSadr])
+  | localStation mac => exact absurd hw (by simp [WFSadr])
+  | remoteBroadcast net => exact absurd hw (by simp [WFSadr])
+  | globalBroadcast => exact absurd hw (by simp [WFSadr])
+
+/-- the four sections after the control octet, as one statement per section:
+    the encoder succeeds and the decoder, given the encoder's control octet,
+    reads the field back and leaves what follows untouched -/
+theorem dadr_section (h : Npci) (hw : WF h) :
+    ∃ d, encodeDadrOpt h.dadr = .ok d ∧
+      ∀ rest, optSection (bit (controlOctet h) 0x20) decodeDadr (d ++ rest) = .ok (h.dadr, rest) := by
+  obtain ⟨_, _, hd, _⟩ := hw
+  have hb := (control_octet_layout h).2.2.2.1
+  cases hda : h.dadr with
+  | none => exact ⟨[], rfl, by intro rest; simp [optSection, hb, hda]⟩
+  | some a =>
+    rw [hda] at hd
+    obtain ⟨d, h1, h2⟩ := decodeDadr_encode a hd
+    exact ⟨d, h1, by intro rest; simp [optSection, hb, hda, h2]⟩
+
+theorem sadr_section (h : Npci) (hw : WF h) :
+    ∃ d, encodeSadrOpt h.sadr = .ok d ∧
+      ∀ rest, optSection (bit (controlOctet h) 0x08) decodeSadr (d ++ rest) = .ok (h.sadr, rest) := by
+  obtain ⟨_, _, _, hs, _⟩ := hw
+  have hb := (control_octet_layout h).2.2.2.2.2.1
+  cases hsa : h.sadr with
+  | none => exact ⟨[], rfl, by intro rest; simp [optSection, hb, hsa]⟩
+  | some a =>
+    rw [hsa] at hs
+    obtain ⟨d, h1, h2⟩ := decodeSadr_encode a hs
+    exact ⟨d, h1, by intro rest; simp [optSection, hb, hsa, h2]⟩
+
+theorem hop_section (h : Npci) (hw : WF h) :
+    ∃ d, encodeHop h = .ok d ∧
+      ∀ rest, optSection (bit (controlOctet h) 0x20) getU8 (d ++ rest) = .ok (h.hopCount, rest) := by
+  obtain ⟨_, _, _, _, hh, _⟩ := hw
+  have hb := (control_octet_layout h).2.2.2.1
+  cases hda : h.dadr with
+  | none =>
+    cases hho : h.hopCount with
+    | none => exact ⟨[], by simp [encodeHop, hda], by intro rest; simp [optSection, hb, hda]⟩
+    | some n => simp [hda, hho] at hh
+  | some a =>
+    cases hho : h.hopCount with
+    | none => simp [hda, hho] at hh
+    | some n =>
+      simp only [hda, hho] at hh
+      refine ⟨[UInt8.ofNat n], by simp [encodeHop, hda, hho, putOpt, put_ok hh], ?_⟩
+      intro rest
+      simp [optSection, hb, hda, getU8_cons n hh]
+
+theorem msg_section (h : Npci) (hw : WF h) :
+    ∃ d, encodeMsgType h = .ok d ∧
+      ∀ rest, optSection (bit (controlOctet h) 0x80) decodeMsgType (d ++ rest) =
+        .ok (h.netMessage.map fun m => (m, h.vendorId), rest) := by
+  obtain ⟨_, _, _, _, _, hm⟩ := hw
+  have hb := (control_octet_layout h).2.1
+  cases hme : h.netMessage with
+  | none => exact ⟨[], by simp [encodeMsgType, hme], by intro rest; simp [optSection, hb, hme]⟩
+  | some m =>
+    cases hve : h.vendorId with
+    | none =>
+      simp only [hme, hve] at hm
+      have h80 : ¬ (128 ≤ m ∧ m ≤ 255) := by omega
+      refine ⟨[UInt8.ofNat m], by simp [encodeMsgType, hme, put_ok (show m < 256 by omega), h80], ?_⟩
+      intro rest
+      simp [optSection, hb, hme, decodeMsgType, getU8_cons m (by omega), h80]
+    | some v =>
+      simp only [hme, hve] at hm
+      obtain ⟨h1, h2, h3⟩ := hm
+      have h80 : 128 ≤ m ∧ m ≤ 255 := by omega
+      refine ⟨[UInt8.ofNat m] ++ be16 v, by simp [encodeMsgType, hme, hve, put_ok h2, h80], ?_⟩
+      intro rest
+      simp [optSection, hb, hme, decodeMsgType, getU8_cons m h2, h80, getU16_be16 v h3]
+
+/-- **npci_layout**: the header of a well-formed `h` is, in this order:
+    version 1, the control octet, DNET/DLEN/DADR, SNET/SLEN/SADR, hop count,
+    message type, vendor id — each present exactly as the control octet says
+    (clause 6.2.2). -/
+theorem npci_layout (h : Npci) (hw : WF h) :
+    encodeNpci h = .ok (
+      [1, UInt8.ofNat (controlOctet h)] ++
+      (match h.dadr with
+       | some (.remoteStation net mac) => be16 net ++ [UInt8.ofNat mac.length] ++ mac
+       | some (.remoteBroadcast net) => be16 net ++ [0]
+       | some .globalBroadcast => [0xFF, 0xFF, 0]
+       | _ => []) ++
+      (match h.sadr with
+       | some (.remoteStation net mac) => be16 net ++ [UInt8.ofNat mac.length] ++ mac
+       | _ => []) ++
+      (match h.hopCount with | some n => [UInt8.ofNat n] | none => []) ++
+      (match h.netMessage with | some m => [UInt8.ofNat m] | none => []) ++
+      (match h.vendorId with | some v => be16 v | none => [])) := by
+  have hc := (control_octet_layout h).1
+  obtain ⟨hv, _, hd, hs, hh, hm⟩ := hw
+  unfold encodeNpci
+  rw [hv, put_ok (by omega), put_ok hc]
+  simp only
+  -- destination
+  have e1 : encodeDadrOpt h.dadr = .ok (match h.dadr with
+       | some (.remoteStation net mac) => be16 net ++ [UInt8.ofNat mac.length] ++ mac
+       | some (.remoteBroadcast net) => be16 net ++ [0]
+       | some .globalBroadcast => [0xFF, 0xFF, 0]
+       | _ => []) := by
+    cases hda : h.dadr with
+    | none => rfl
+    | some a =>
+      rw [hda] at hd
+      cases a with
+      | remoteStation net mac =>
+        obtain ⟨_, _, h2⟩ := hd
+        simp [encodeDadrOpt, encodeDadr, put_ok (show mac.length < 256 by omega)]
+      | remoteBroadcast net => simp [encodeDadrOpt, encodeDadr]
+      | globalBroadcast => simp [encodeDadrOpt, encodeDadr]
+      | null => exact absurd hd (by simp [WFDadr])
+      | localBroadcast => exact absurd hd (by simp [WFDadr])
+      | localStation mac => exact absurd hd (by simp [WFDadr])
+  have e2 : encodeSadrOpt h.sadr = .ok (match h.sadr with
+       | some (.remoteStation net mac) => be16 net ++ [UInt8.ofNat mac.length] ++ mac
+       | _ => []) := by
+    cases hsa : h.sadr with
+    | none => rfl
+    | some a =>
+      rw [hsa] at hs
+      cases a with
+      | remoteStation net mac =>
+        obtain ⟨_, _, h2⟩ := hs
+        simp [encodeSadrOpt, encodeSadr, put_ok (show mac.length < 256 by omega)]
+      | null => exact absurd hs (by simp [WFSadr])
+      | localBroadcast => exact absurd hs (by simp [WFSadr])
+      | localStation mac => exact absurd hs (by simp [WFSadr])
+      | remoteBroadcast net => exact absurd hs (by simp [WFSadr])
+      | globalBroadcast => exact absurd hs (by simp [WFSadr])
+  have e3 : encodeHop h = .ok (match h.hopCount with | some n => [UInt8.ofNat n] | none => []) := by
+    cases hda : h.dadr <;> cases hho : h.hopCount <;> simp [hda, hho] at hh <;>
+      simp [encodeHop, hda, hho, putOpt, put_ok, hh]
+  have e4 : encodeMsgType h = .ok ((match h.netMessage with | some m => [UInt8.ofNat m] | none => []) ++
+      (match h.vendorId with | some v => be16 v | none => [])) := by
+    cases hme : h.netMessage with
+    | none =>
+      cases hve : h.vendorId with
+      | none => simp [encodeMsgType, hme]
+      | some v => simp [hme, hve] at hm
+    | some m =>
+      cases hve : h.vendorId with
+      | none =>
+        simp only [hme, hve] at hm
+        have h80 : ¬ (128 ≤ m ∧ m ≤ 255) := by omega
+        simp [encodeMsgType, hme, put_ok (show m < 256 by omega), h80]
+      | some v =>
+        simp only [hme, hve] at hm
+        obtain ⟨h1, h2, h3⟩ := hm
+        have h80 : 128 ≤ m ∧ m ≤ 255 := by omega
+        simp [encodeMsgType, hme, hve, put_ok h2, h80]
+  rw [e1, e2, e3, e4]
+  simp [List.append_assoc]
+
+/-! ## the header round trip -/
+
+theorem decodeNpci_encode (h : Npci) (hw : WF h) :
+    ∃ hd, encodeNpci h = .ok hd ∧ 2 ≤ hd.length ∧
+      ∀ rest, decodeNpci (hd ++ rest) = .ok ({ h with control := controlOctet h }, rest) := by
+  have hc := (control_octet_layout h)
+  obtain ⟨d, hd1, hd2⟩ := dadr_section h hw
+  obtain ⟨s, hs1, hs2⟩ := sadr_section h hw
+  obtain ⟨p, hp1, hp2⟩ := hop_section h hw
+  obtain ⟨m, hm1, hm2⟩ := msg_section h hw
+  obtain ⟨hv, hpri, hrest⟩ := hw
+  refine ⟨[1] ++ [UInt8.ofNat (controlOctet h)] ++ d ++ s ++ p ++ m, ?_, by simp, ?_⟩
+  · simp [encodeNpci, hv, put_ok (show 1 < 256 by omega), put_ok hc.1, hd1, hs1, hp1, hm1]
+  · intro rest
+    have hmod : controlOctet h % 4 = h.priority := by rw [hc.2.2.2.2.2.2.2]; omega
+    unfold decodeNpci
+    simp only [List.append_assoc, List.cons_append, List.nil_append, List.length_cons]
+    rw [if_neg (by omega)]
+    simp only [getU8, toNat_ofNat_lt hc.1]
+    simp only [show (1 : UInt8).toNat = 1 from rfl, ne_eq, not_true_eq_false, if_false]
+    simp only [hd2, hs2, hp2, hm2]
+    simp only [hc.2.2.2.2.2.2.1, hmod]
+    have hmsg : (h.netMessage.map fun m => (m, h.vendorId)).map (·.1) = h.netMessage := by
+      cases h.netMessage <;> rfl
+    have hvid : (h.netMessage.map fun m => (m, h.vendorId)).bind (·.2) = h.vendorId := by
+      have hm6 := hrest.2.2.2
+      cases hme : h.netMessage <;> cases hve : h.vendorId <;> simp [hme, hve] at hm6 ⊢
+    rw [hmsg, hvid]
+    cases h
+    simp only at hv
+    subst hv
+    rfl
+
+/-- **npci_roundtrip**: every header of the property's quantifier, with any
+    payload, is accepted by the encoder and decodes to the same fields and the
+    same payload (`control` is the octet both sides record). -/
+theorem npci_roundtrip (h : Npci) (hw : WF h) (payload : Bytes) :
+    ∃ bs, encodeNpdu h payload = .ok bs ∧
+      decodeNpdu bs = .ok ({ h with control := controlOctet h }, payload) := by
+  obtain ⟨hd, h1, _, h2⟩ := decodeNpci_encode h hw
+  exact ⟨hd ++ payload, by simp [encodeNpdu, h1], by simp [decodeNpdu, h2]⟩
+
+/-! ## what the decoder refuses -/
+
+/-- **npci_refuses_version**: any octet string that does not start with
+    version 1 (the empty string included) is refused. -/
+theorem npci_refuses_version (bs : Bytes) (h : bs.head? ≠ some 1) :
+    decodeNpdu bs = .error .decoding := by
+  unfold decodeNpdu
+  match bs, h with
+  | [], _ => simp [decodeNpci]
+  | [x], _ => simp [decodeNpci]
+  | a :: b :: r, h =>
+    have : a.toNat ≠ 1 := by
+      intro hh
+      apply h
+      have : a = 1 := UInt8.toNat_inj.mp hh
+      simp [this]
+    simp [decodeNpci, getU8, this]
+
+/-- the source-address section refuses SNET = 0xFFFF and SLEN = 0 -/
+theorem decodeSadr_refuses (net : Nat) (mac rest : Bytes) (hl : mac.length ≤ 255)
+    (hbad : net % 65536 = 65535 ∨ mac = []) :
+    decodeSadr (be16 net ++ [UInt8.ofNat mac.length] ++ mac ++ rest) = .error .decoding := by
+  rw [← be16_mod]
+  simp only [decodeSadr, List.append_assoc, getU16_be16 (net % 65536) (by omega),
+    List.cons_append, List.nil_append, getU8_cons mac.length (by omega), getData_append]
+  rcases hbad with hb | hb
+  · simp [hb]
+  · subst hb; simp
+
+/-- **npci_refuses_source**: a header that is well-formed except that its
+    source address is a broadcast — SNET = 0xFFFF (global) or SLEN = 0 (remote
+    broadcast) — is refused, whatever follows it. -/
+theorem npci_refuses_source (h : Npci) (net : Nat) (mac payload : Bytes)
+    (hw : WF { h with sadr := none }) (hs : h.sadr = some (.remoteStation net mac))
+    (hl : mac.length ≤ 255) (hbad : net % 65536 = 65535 ∨ mac = []) :
+    ∃ bs, encodeNpdu h payload = .ok bs ∧ decodeNpdu bs = .error .decoding := by
+  have hc := control_octet_layout h
+  have hc0 := control_octet_layout { h with sadr := none }
+  obtain ⟨d, hd1, hd2⟩ := dadr_section _ hw
+  obtain ⟨p, hp1, hp2⟩ := hop_section _ hw
+  obtain ⟨m, hm1, hm2⟩ := msg_section _ hw
+  obtain ⟨hv, _⟩ := hw
+  simp only at hv hd1 hp1 hm1
+  have hbit20 : bit (controlOctet h) 0x20 = bit (controlOctet { h with sadr := none }) 0x20 := by
+    rw [hc.2.2.2.1, hc0.2.2.2.1]
+  have hbit08 : bit (controlOctet h) 0x08 = true := by rw [hc.2.2.2.2.2.1, hs]; rfl
+  have hp1' : encodeHop h = .ok p := by simpa [encodeHop] using hp1
+  have hm1' : encodeMsgType h = .ok m := by simpa [encodeMsgType] using hm1
+  refine ⟨[1] ++ [UInt8.ofNat (controlOctet h)] ++ d ++
+      (be16 net ++ [UInt8.ofNat mac.length] ++ mac) ++ p ++ m ++ payload, ?_, ?_⟩
+  · simp [encodeNpdu, encodeNpci, hv, put_ok (show 1 < 256 by omega), put_ok hc.1, hd1, hs,
+      encodeSadrOpt, encodeSadr, put_ok (show mac.length < 256 by omega), hp1', hm1']
+  · unfold decodeNpdu decodeNpci
+    simp only [List.append_assoc, List.cons_append, List.nil_append, List.length_cons]
+    rw [if_neg (by omega)]
+    simp only [getU8, toNat_ofNat_lt hc.1]
+    simp only [show (1 : UInt8).toNat = 1 from rfl, ne_eq, not_true_eq_false, if_false]
+    rw [hbit20]
+    simp only [hd2]
+    have := decodeSadr_refuses net mac (p ++ (m ++ payload)) hl hbad
+    simp only [List.append_assoc, List.cons_append, List.nil_append] at this
+    simp [optSection, hbit08, this]
+
+/-! ### the only failure is `DecodingError` -/
+
+theorem optSection_err {α} {dec : Bytes → Except Err (α × Bytes)} (hd : OnlyDecoding dec) (b : Bool) :
+    OnlyDecoding (optSection b dec) := by
+  intro bs e h
+  unfold optSection at h
+  split at h
+  · split at h
+    · rename_i e' he; cases h; exact hd _ _ he
+    · cases h
+  · cases h
+
+theorem decodeDadr_err : OnlyDecoding decodeDadr := by
+  intro bs e h
+  unfold decodeDadr at h
+  split at h
+  · rename_i e' he; cases h; exact getU16_err _ _ he
+  · split at h
+    · rename_i e' he; cases h; exact getU8_err _ _ he
+    · split at h
+      · rename_i e' he; cases h; exact getData_err _ _ _ he
+      · split at h
+        · cases h
+        · split at h <;> cases h
+
+theorem decodeSadr_err : OnlyDecoding decodeSadr := by
+  intro bs e h
+  unfold decodeSadr at h
+  split at h
+  · rename_i e' he; cases h; exact getU16_err _ _ he
+  · split at h
+    · rename_i e' he; cases h; exact getU8_err _ _ he
+    · split at h
+      · rename_i e' he; cases h; exact getData_err _ _ _ he
+      · split at h
+        · cases h; rfl
+        · split at h
+          · cases h; rfl
+          · cases h
+
+theorem decodeMsgType_err : OnlyDecoding decodeMsgType := by
+  intro bs e h
+  unfold decodeMsgType at h
+  split at h
+  · rename_i e' he; cases h; exact getU8_err _ _ he
+  · split at h
+    · split at h
+      · rename_i e' he; cases h; exact getU16_err _ _ he
+      · cases h
+    · cases h
+
+/-- **decode_only_decoding_errors**: `NPDU.decode` has no failure other than
+    `DecodingError`. -/
+theorem decode_only_decoding_errors : OnlyDecoding decodeNpdu := by
+  intro bs e h
+  unfold decodeNpdu decodeNpci at h
+  split at h
+  · cases h; rfl
+  · split at h
+    · rename_i e' he; cases h; exact getU8_err _ _ he
+    · split at h
+      · cases h; rfl
+      · split at h
+        · rename_i e' he; cases h; exact getU8_err _ _ he
+        · split at h
+          · rename_i e' he; cases h; exact optSection_err decodeDadr_err _ _ _ he
+          · split at h
+            · rename_i e' he; cases h; exact optSection_err decodeSadr_err _ _ _ he
+            · split at h
+              · rename_i e' he; cases h; exact optSection_err getU8_err _ _ _ he
+              · split at h
+                · rename_i e' he; cases h; exact optSection_err decodeMsgType_err _ _ _ he
+                · cases h
+
+/-! ### truncation -/
+
+theorem optSection_ext {α} {dec : Bytes → Except Err (α × Bytes)} (hd : Ext dec) (b : Bool) :
+    Ext (optSection b dec) := by
+  intro p s a r h
+  unfold optSection at h ⊢
+  split at h
+  · rename_i hb
+    simp only [hb, if_true]
+    split at h
+    · cases h
+    · rename_i a' r' he
+      cases h
+      rw [hd _ s _ _ he]
+  · rename_i hb
+    simp only [hb]
+    cases h
+    rfl
+
+theorem decodeDadr_ext : Ext decodeDadr := by
+  intro p s a r h
+  unfold decodeDadr at h ⊢
+  split at h
+  · cases h
+  · rename_i dnet r1 h1
+    rw [getU16_ext _ s _ _ h1]
+    simp only
+    split at h
+    · cases h
+    · rename_i dlen r2 h2
+      rw [getU8_ext _ s _ _ h2]
+      simp only
+      split at h
+      · cases h
+      · rename_i dadr r3 h3
+        rw [getData_ext _ _ s _ _ h3]
+        simp only
+        split at h
+        · cases h; simp [*]
+        · split at h <;> (cases h; simp [*])
+
+theorem decodeSadr_ext : Ext decodeSadr := by
+  intro p s a r h
+  unfold decodeSadr at h ⊢
+  split at h
+  · cases h
+  · rename_i dnet r1 h1
+    rw [getU16_ext _ s _ _ h1]
+    simp only
+    split at h
+    · cases h
+    · rename_i dlen r2 h2
+      rw [getU8_ext _ s _ _ h2]
+      simp only
+      split at h
+      · cases h
+      · rename_i dadr r3 h3
+        rw [getData_ext _ _ s _ _ h3]
+        simp only
+        split at h
+        · cases h
+        · split at h
+          · cases h
+          · cases h; simp [*]
+
+theorem decodeMsgType_ext : Ext decodeMsgType := by
+  intro p s a r h
+  unfold decodeMsgType at h ⊢
+  split at h
+  · cases h
+  · rename_i m r1 h1
+    rw [getU8_ext _ s _ _ h1]
+    simp only
+    split at h
+    · rename_i hm
+      simp only [hm, and_self, if_true]
+      split at h
+      · cases h
+      · rename_i v r2 h2
+        cases h
+        rw [getU16_ext _ s _ _ h2]
+    · rename_i hm
+      simp only [hm, if_false]
+      cases h
+      rfl
+
+/-- octets appended to an accepted header come out as (more) payload: the
+    decoder's reading of the header does not depend on what follows it -/
+theorem decodeNpci_ext : Ext decodeNpci := by
+  intro p s a r h
+  unfold decodeNpci at h ⊢
+  split at h
+  · cases h
+  · rename_i hlen
+    rw [if_neg (by simp only [List.length_append]; omega)]
+    split at h
+    · cases h
+    · rename_i ver r0 h0
+      rw [getU8_ext _ s _ _ h0]
+      simp only
+      split at h
+      · cases h
+      · rename_i hver
+        rw [if_neg hver]
+        split at h
+        · cases h
+        · rename_i ctl r1 h1
+          rw [getU8_ext _ s _ _ h1]
+          simp only
+          split at h
+          · cases h
+          · rename_i dadr r2 h2
+            rw [optSection_ext decodeDadr_ext _ _ s _ _ h2]
+            simp only
+            split at h
+            · cases h
+            · rename_i sadr r3 h3
+              rw [optSection_ext decodeSadr_ext _ _ s _ _ h3]
+              simp only
+              split at h
+              · cases h
+              · rename_i hop r4 h4
+                rw [optSection_ext getU8_ext _ _ s _ _ h4]
+                simp only
+                split at h
+                · cases h
+                · rename_i mt r5 h5
+                  rw [optSection_ext decodeMsgType_ext _ _ s _ _ h5]
+                  cases h
+                  rfl
+
+/-- **truncation_refused**: EVERY strict prefix of the header of a
+    well-formed NPCI — cut anywhere, including inside a 255-octet address — is
+    refused with a decoding error. -/
+theorem truncation_refused (h : Npci) (hw : WF h) (hdr p s : Bytes)
+    (henc : encodeNpci h = .ok hdr) (hcut : hdr = p ++ s) (hs : s ≠ []) :
+    decodeNpdu p = .error .decoding := by
+  obtain ⟨hd, h1, _, h2⟩ := decodeNpci_encode h hw
+  rw [henc] at h1
+  cases h1
+  cases hp : decodeNpdu p with
+  | error e => rw [decode_only_decoding_errors p e hp]
+  | ok v =>
+    obtain ⟨h', r⟩ := v
+    have hext := decodeNpci_ext p s h' r hp
+    have hfull := h2 []
+    rw [List.append_nil, hcut, hext] at hfull
+    simp only [Except.ok.injEq, Prod.mk.injEq, List.append_eq_nil_iff] at hfull
+    exact absurd hfull.2.2 hs
+
+/-! ## whatever is accepted is a well-formed header (nothing is misread) -/
+
+theorem decodeDadr_wf {bs r : Bytes} {a : Addr} (h : decodeDadr bs = .ok (a, r)) : WFDadr a := by
+  unfold decodeDadr at h
+  split at h
+  · cases h
+  · rename_i dnet r1 h1
+    split at h
+    · cases h
+    · rename_i dlen r2 h2
+      split at h
+      · cases h
+      · rename_i dadr r3 h3
+        have hn := (getU16_ok h1).1
+        have hl := (getU8_ok h2).1
+        have hd := (getData_ok h3).2
+        split at h
+        · cases h; trivial
+        · split at h
+          · cases h; show dnet < 65535; omega
+          · cases h; exact ⟨by omega, by omega, by omega⟩
+
+theorem decodeSadr_wf {bs r : Bytes} {a : Addr} (h : decodeSadr bs = .ok (a, r)) : WFSadr a := by
+  unfold decodeSadr at h
+  split at h
+  · cases h
+  · rename_i dnet r1 h1
+    split at h
+    · cases h
+    · rename_i dlen r2 h2
+      split at h
+      · cases h
+      · rename_i dadr r3 h3
+        have hn := (getU16_ok h1).1
+        have hl := (getU8_ok h2).1
+        have hd := (getData_ok h3).2
+        split at h
+        · cases h
+        · split at h
+          · cases h
+          · cases h; exact ⟨by omega, by omega, by omega⟩
+
+theorem optSection_ok {α} {dec : Bytes → Except Err (α × Bytes)} {b : Bool} {bs r : Bytes} {o : Option α}
+    (h : optSection b dec bs = .ok (o, r)) :
+    (b = false ∧ o = none ∧ r = bs) ∨ (b = true ∧ ∃ a, o = some a ∧ dec bs = .ok (a, r)) := by
+  unfold optSection at h
+  split at h
+  · rename_i hb
+    split at h
+    · cases h
+    · rename_i a r' he; cases h; exact Or.inr ⟨hb, a, rfl, he⟩
+  · rename_i hb
+    cases h
+    exact Or.inl ⟨by simpa using hb, rfl, rfl⟩
+
+/-- **decode_wf**: for EVERY octet string — every one of the 2^8 control
+    octets, reserved bits set or not — an accepted header is one of the
+    property's well-formed headers. -/
+theorem decode_wf {bs payload : Bytes} {h : Npci} (hdec : decodeNpdu bs = .ok (h, payload)) : WF h := by
+  unfold decodeNpdu decodeNpci at hdec
+  split at hdec
+  · cases hdec
+  · split at hdec
+    · cases hdec
+    · rename_i ver r0 h0
+      split at hdec
+      · cases hdec
+      · rename_i hver
+        split at hdec
+        · cases hdec
+        · rename_i ctl r1 h1
+          split at hdec
+          · cases hdec
+          · rename_i dadr r2 h2
+            split at hdec
+            · cases hdec
+            · rename_i sadr r3 h3
+              split at hdec
+              · cases hdec
+              · rename_i hop r4 h4
+                split at hdec
+                · cases hdec
+                · rename_i mt r5 h5
+                  cases hdec
+                  refine ⟨by simpa using hver, Nat.mod_lt _ (by omega), ?_, ?_, ?_, ?_⟩
+                  · rcases optSection_ok h2 with ⟨_, rfl, _⟩ | ⟨_, a, rfl, ha⟩
+                    · trivial
+                    · exact decodeDadr_wf ha
+                  · rcases optSection_ok h3 with ⟨_, rfl, _⟩ | ⟨_, a, rfl, ha⟩
+                    · trivial
+                    · exact decodeSadr_wf ha
+                  · rcases optSection_ok h2 with ⟨hb, rfl, _⟩ | ⟨hb, a, rfl, ha⟩ <;>
+                    rcases optSection_ok h4 with ⟨hb', rfl, _⟩ | ⟨hb', n, rfl, hn⟩
+                    · trivial
+                    · rw [hb] at hb'; cases hb'
+                    · rw [hb] at hb'; cases hb'
+                    · exact (getU8_ok hn).1
+                  · rcases optSection_ok h5 with ⟨_, rfl, _⟩ | ⟨_, mv, rfl, hmv⟩
+                    · trivial
+                    · unfold decodeMsgType at hmv
+                      split at hmv
+                      · cases hmv
+                      · rename_i m r6 h6
+                        have hm := (getU8_ok h6).1
+                        split at hmv
+                        · rename_i h80
+                          split at hmv
+                          · cases hmv
+                          · rename_i v r7 h7
+                            cases hmv
+                            exact ⟨h80.1, hm, (getU16_ok h7).1⟩
+                        · rename_i h80
+                          cases hmv
+                          show m < 128
+                          omega
+
+/-- **reparse_stable**: any accepted frame, canonical or not, re-encodes to a
+    frame that decodes to the same fields and payload (only the reserved
+    control bits, which carry no field, are normalised). -/
+theorem reparse_stable {bs payload : Bytes} {h : Npci} (hdec : decodeNpdu bs = .ok (h, payload)) :
+    ∃ bs', encodeNpdu h payload = .ok bs' ∧
+      decodeNpdu bs' = .ok ({ h with control := controlOctet h }, payload) :=
+  npci_roundtrip h (decode_wf hdec) payload
+
+/-! ## message bodies -/
+
+def WFRte (e : Rte) : Prop := e.dnet < 65536 ∧ e.portId < 256 ∧ e.portInfo.length ≤ 255
+
+instance (e : Rte) : Decidable (WFRte e) := by unfold WFRte; exact inferInstance
+
+/-- the parameters the property quantifies over: 16-bit network numbers,
+    one-octet codes, network lists of ANY length, routing tables of up to 255
+    entries with port-info of up to 255 octets -/
+def WFMsg : NetMsg → Prop
+  | .whoIsRouterToNetwork none => True
+  | .whoIsRouterToNetwork (some n) => n < 65536
+  | .iAmRouterToNetwork ns => ∀ n ∈ ns, n < 65536
+  | .iCouldBeRouterToNetwork net perf => net < 65536 ∧ perf < 256
+  | .rejectMessageToNetwork reason dnet => reason < 256 ∧ dnet < 65536
+  | .routerBusyToNetwork ns => ∀ n ∈ ns, n < 65536
+  | .routerAvailableToNetwork ns => ∀ n ∈ ns, n < 65536
+  | .initializeRoutingTable t => t.length ≤ 255 ∧ ∀ e ∈ t, WFRte e
+  | .initializeRoutingTableAck t => t.length ≤ 255 ∧ ∀ e ∈ t, WFRte e
+  | .establishConnectionToNetwork dnet term => dnet < 65536 ∧ term < 256
+  | .disconnectConnectionToNetwork dnet => dnet < 65536
+  | .whatIsNetworkNumber => True
+  | .networkNumberIs net flag => net < 65536 ∧ flag < 256
+
+instance (m : NetMsg) : Decidable (WFMsg m) := by
+  cases m with
+  | whoIsRouterToNetwork n => cases n <;> (unfold WFMsg; exact inferInstance)
+  | _ => unfold WFMsg; exact inferInstance
+
+/-- **nets_roundtrip**: network lists of any length -/
+theorem nets_roundtrip (ns : List Nat) (h : ∀ n ∈ ns, n < 65536) :
+    decodeNets (encodeNets ns) = .ok ns := by
+  induction ns with
+  | nil => rfl
+  | cons n ns ih =>
+    have hn := h n (by simp)
+    simp only [encodeNets, be16, List.cons_append, List.nil_append, decodeNets]
+    rw [ih (fun x hx => h x (by simp [hx]))]
+    simp; omega
+
+theorem rte_roundtrip (e : Rte) (hw : WFRte e) :
+    ∃ b, encodeRte e = .ok b ∧ ∀ rest, decodeRte (b ++ rest) = .ok (e, rest) := by
+  obtain ⟨h1, h2, h3⟩ := hw
+  refine ⟨be16 e.dnet ++ [UInt8.ofNat e.portId] ++ [UInt8.ofNat e.portInfo.length] ++ e.portInfo,
+    by simp [encodeRte, put_ok h2, put_ok (show e.portInfo.length < 256 by omega)], ?_⟩
+  intro rest
+  simp [decodeRte, List.append_assoc, getU16_be16 e.dnet h1, getU8_cons e.portId h2,
+    getU8_cons e.portInfo.length (by omega), getData_append]
+
+/-- **rtes_roundtrip**: routing tables of any length (the count octet limits
+    what `encodeTable` accepts, not this loop) -/
+theorem rtes_roundtrip (es : List Rte) (hw : ∀ e ∈ es, WFRte e) :
+    ∃ bs, encodeRtes es = .ok bs ∧ ∀ rest, decodeRtes es.length (bs ++ rest) = .ok (es, rest) := by
+  induction es with
+  | nil => exact ⟨[], rfl, by intro rest; rfl⟩
+  | cons e es ih =>
+    obtain ⟨b, hb1, hb2⟩ := rte_roundtrip e (hw e (by simp))
+    obtain ⟨bs, hbs1, hbs2⟩ := ih (fun x hx => hw x (by simp [hx]))
+    refine ⟨b ++ bs, by simp [encodeRtes, hb1, hbs1], ?_⟩
+    intro rest
+    simp [decodeRtes, List.append_assoc, hb2, hbs2]
+
+theorem table_roundtrip (t : List Rte) (hl : t.length ≤ 255) (hw : ∀ e ∈ t, WFRte e) :
+    ∃ bs, encodeTable t = .ok bs ∧ decodeTable bs = .ok t := by
+  obtain ⟨bs, h1, h2⟩ := rtes_roundtrip t hw
+  refine ⟨[UInt8.ofNat t.length] ++ bs, by simp [encodeTable, put_ok (show t.length < 256 by omega), h1], ?_⟩
+  have := h2 []
+  rw [List.append_nil] at this
+  simp [decodeTable, getU8_cons t.length (by omega), this]
+
+theorem shortOctet_roundtrip (a b : Nat) (ha : a < 65536) (hb : b < 256) :
+    ∃ bs, encShortOctet a b = .ok bs ∧ decShortOctet bs = .ok (a, b) := by
+  refine ⟨be16 a ++ [UInt8.ofNat b], by simp [encShortOctet, put_ok hb], ?_⟩
+  simp [decShortOctet, getU16_be16 a ha, getU8_cons b hb]
+
+/-- **body_roundtrip**: each of the twelve messages round-trips its
+    parameters, for network lists of any length and every routing table the
+    count octet can announce. -/
+theorem body_roundtrip (m : NetMsg) (hw : WFMsg m) :
+    ∃ bs, encodeBody m = .ok bs ∧ decodeBody m.kind bs = .ok m := by
+  cases m with
+  | whoIsRouterToNetwork n =>
+    cases n with
+    | none => exact ⟨[], rfl, rfl⟩
+    | some n =>
+      have hn : n < 65536 := hw
+      refine ⟨be16 n, rfl, ?_⟩
+      have := getU16_be16 n hn []
+      rw [List.append_nil] at this
+      simp only [NetMsg.kind, decodeBody]
+      simp only [be16] at this ⊢
+      simp [this]
+  | iAmRouterToNetwork ns =>
+    exact ⟨encodeNets ns, rfl, by simp [NetMsg.kind, decodeBody, nets_roundtrip ns hw, Except.map]⟩
+  | routerBusyToNetwork ns =>
+    exact ⟨encodeNets ns, rfl, by simp [NetMsg.kind, decodeBody, nets_roundtrip ns hw, Except.map]⟩
+  | routerAvailableToNetwork ns =>
+    exact ⟨encodeNets ns, rfl, by simp [NetMsg.kind, decodeBody, nets_roundtrip ns hw, Except.map]⟩
+  | iCouldBeRouterToNetwork net perf =>
+    obtain ⟨bs, h1, h2⟩ := shortOctet_roundtrip net perf hw.1 hw.2
+    exact ⟨bs, h1, by simp [NetMsg.kind, decodeBody, h2, Except.map]⟩
+  | establishConnectionToNetwork dnet term =>
+    obtain ⟨bs, h1, h2⟩ := shortOctet_roundtrip dnet term hw.1 hw.2
+    exact ⟨bs, h1, by simp [NetMsg.kind, decodeBody, h2, Except.map]⟩
+  | networkNumberIs net flag =>
+    obtain ⟨bs, h1, h2⟩ := shortOctet_roundtrip net flag hw.1 hw.2
+    exact ⟨bs, h1, by simp [NetMsg.kind, decodeBody, h2, Except.map]⟩
+  | rejectMessageToNetwork reason dnet =>
+    obtain ⟨h1, h2⟩ := hw
+    refine ⟨[UInt8.ofNat reason] ++ be16 dnet, by simp [encodeBody, put_ok h1], ?_⟩
+    have := getU16_be16 dnet h2 []
+    rw [List.append_nil] at this
+    simp [NetMsg.kind, decodeBody, getU8_cons reason h1, this]
+  | initializeRoutingTable t =>
+    obtain ⟨bs, h1, h2⟩ := table_roundtrip t hw.1 hw.2
+    exact ⟨bs, h1, by simp [NetMsg.kind, decodeBody, h2, Except.map]⟩
+  | initializeRoutingTableAck t =>
+    obtain ⟨bs, h1, h2⟩ := table_roundtrip t hw.1 hw.2
+    exact ⟨bs, h1, by simp [NetMsg.kind, decodeBody, h2, Except.map]⟩
+  | disconnectConnectionToNetwork dnet =>
+    have hn : dnet < 65536 := hw
+    refine ⟨be16 dnet, rfl, ?_⟩
+    have := getU16_be16 dnet hn []
+    rw [List.append_nil] at this
+    simp [NetMsg.kind, decodeBody, this]
+  | whatIsNetworkNumber => exact ⟨[], rfl, rfl⟩
+
+/-- **table_256_refused**: a routing table of 256 or more entries cannot be
+    announced by the one-octet count and is refused by the encoder (Python:
+    `ValueError` from `bytes([256])`) instead of being truncated. -/
+theorem table_256_refused (t : List Rte) (h : 256 ≤ t.length) :
+    encodeBody (.initializeRoutingTable t) = .error .other ∧
+    encodeBody (.initializeRoutingTableAck t) = .error .other := by
+  have : ¬ t.length < 256 := by omega
+  simp [encodeBody, encodeTable, put, this]
+
+/-! ## the type registry and complete message frames -/
+
+/-- the regenerated `npdu_types` registry of the tree under test is exactly
+    the table the model dispatches on (kernel evaluation) -/
 theorem registry_matches : Gen.npduTypes = registry := by decide
+
+theorem kindOfCode_code (k : MsgKind) : kindOfCode k.code = some k := by cases k <;> rfl
+
+theorem kindOfCode_some {c : Nat} {k : MsgKind} (h : kindOfCode c = some k) : k.code = c := by
+  unfold kindOfCode at h
+  have := List.find?_some h
+  simpa using this
+
+theorem code_lt_128 (k : MsgKind) : k.code < 128 := by cases k <;> decide
+
+/-- **message_roundtrip**: a message object with any well-formed routing
+    header encodes (body, then header with its own message type) to a frame
+    that decodes, through the registry dispatch, to the same header fields and
+    the same parameters. -/
+theorem message_roundtrip (h : Npci) (m : NetMsg)
+    (hw : WF { h with netMessage := some m.kind.code }) (hm : WFMsg m) :
+    ∃ bs, encodeMessage h m = .ok bs ∧
+      decodeMessage bs = .ok (.message
+        { h with netMessage := some m.kind.code,
+                 control := controlOctet { h with netMessage := some m.kind.code } } m) := by
+  obtain ⟨body, hb1, hb2⟩ := body_roundtrip m hm
+  obtain ⟨bs, h1, h2⟩ := npci_roundtrip _ hw body
+  refine ⟨bs, by simp [encodeMessage, hb1, h1], ?_⟩
+  simp [decodeMessage, h2, kindOfCode_code, hb2]
+
+/-! ## non-vacuity: concrete, non-trivial instances of every hypothesis -/
+
+/-- every optional field present: expecting reply, priority 3, DADR = remote
+    station with a 6-octet MAC, SADR with a 1-octet MAC, hop count 255,
+    proprietary message 0x80 with vendor id 260 -/
+def exFull : Npci :=
+  { expectingReply := true, priority := 3,
+    dadr := some (.remoteStation 65534 [1, 2, 3, 4, 5, 6]), sadr := some (.remoteStation 7 [9]),
+    hopCount := some 255, netMessage := some 0x80, vendorId := some 260 }
+
+example : WF exFull := by decide
+example : controlOctet exFull = 0xAF := by decide
+example : encodeNpdu exFull [0xDE, 0xAD] =
+    .ok [1, 0xAF, 0xFF, 0xFE, 6, 1, 2, 3, 4, 5, 6, 0, 7, 1, 9, 0xFF, 0x80, 1, 4, 0xDE, 0xAD] := by rfl
+example : decodeNpdu [1, 0xAF, 0xFF, 0xFE, 6, 1, 2, 3, 4, 5, 6, 0, 7, 1, 9, 0xFF, 0x80, 1, 4, 0xDE, 0xAD] =
+    .ok ({ exFull with control := 0xAF }, [0xDE, 0xAD]) := by rfl
+/-- global broadcast, application payload -/
+example : WF { dadr := some .globalBroadcast, hopCount := some 0 } := by decide
+/-- `npci_refuses_source`: the hypotheses are met by SNET = 0xFFFF … -/
+example : WF { exFull with sadr := none } ∧ ((65535 % 65536 = 65535) ∨ ([9] : Bytes) = []) := by decide
+example : decodeNpdu [1, 0x08, 0xFF, 0xFF, 1, 9, 0x55] = .error .decoding := by rfl
+/-- … and by SLEN = 0 -/
+example : decodeNpdu [1, 0x08, 0x00, 0x07, 0, 0x55] = .error .decoding := by rfl
+/-- `truncation_refused`: a cut inside the destination address (test) -/
+example : decodeNpdu [1, 0xAF, 0xFF, 0xFE, 6, 1, 2, 3] = .error .decoding := by rfl
+/-- reserved control bits are accepted and dropped -/
+example : decodeNpdu [1, 0x50, 0xAA] = .ok ({ control := 0x50 }, [0xAA]) := by rfl
+/-- messages -/
+example : WFMsg (.iAmRouterToNetwork [1, 65535, 0]) := by decide
+example : WFMsg (.initializeRoutingTable [⟨1, 2, [0xAA, 0xBB]⟩, ⟨65535, 255, []⟩]) := by decide
+example : WF { exFull with netMessage := some (NetMsg.networkNumberIs 5 1).kind.code, vendorId := none } := by
+  decide
+example : encodeMessage {} (.initializeRoutingTableAck [⟨1, 2, [0xAA, 0xBB]⟩]) =
+    .ok [1, 0x80, 7, 1, 0, 1, 2, 2, 0xAA, 0xBB] := by rfl
+example : decodeMessage [1, 0x80, 1, 0, 1, 0] = .error .decoding := by rfl   -- odd-length list
 
 end BacVerif.C08
